@@ -96,18 +96,21 @@ def f64OfRat (neg : Bool) (p q : Nat) : Nat :=
   if p = 0 then (if neg then 2 ^ 63 else 0)
   else let (m, e) := roundRat p q; packF64 neg m e
 
+/-- the exact value m2·2^e2 in hundredths, rounded half-even to an integer: the digits `%.2f` prints -/
+def hundredths (m2 : Nat) (e2 : Int) : Nat :=
+  if e2 ≥ 0 then m2 * 2 ^ e2.toNat * 100 else rneDiv (m2 * 100) (2 ^ (-e2).toNat)
+
 /-- Go `fmt.Sprintf("%.2f", float64(c)/100)` for an `int64` c: two correctly rounded operations
 (int → binary64, division by 100), then the exact decimal expansion rounded half-even to 2 places -/
 def moneyText (c : Int) : Bytes :=
   let a := c.natAbs
   if a = 0 then asc "0.00"
   else
-    let (m1, e1) := roundRat a 1                       -- float64(c)
-    let p := if e1 ≥ 0 then m1 * 2 ^ e1.toNat else m1
-    let q := if e1 ≥ 0 then 100 else 100 * 2 ^ (-e1).toNat
-    let (m2, e2) := roundRat p q                        -- … / 100
-    -- hundredths, rounded half-even on the exact value m2·2^e2
-    let n := if e2 ≥ 0 then m2 * 2 ^ e2.toNat * 100 else rneDiv (m2 * 100) (2 ^ (-e2).toNat)
+    let r1 := roundRat a 1                               -- float64(c) = r1.1 · 2^r1.2
+    let p := if r1.2 ≥ 0 then r1.1 * 2 ^ r1.2.toNat else r1.1
+    let q := if r1.2 ≥ 0 then 100 else 100 * 2 ^ (-r1.2).toNat
+    let r2 := roundRat p q                               -- … / 100
+    let n := hundredths r2.1 r2.2
     (if c < 0 then [45] else []) ++ decNat (n / 100) ++ [46] ++ padNat 2 (n % 100)
 
 /-! ## binary64 / binary32 classification on bit patterns -/
